@@ -351,6 +351,11 @@ def run(ctx):
         schema = info.schema
         ctx.driver.add_schema(info)
         docs = [gen.gen_doc(rng, schema, budget=rng.choice([8, 16, 30])) for _ in range(ctx.budget(4, 8))]
+        # aimed: a mark-restricting textblock next to a textblock of compatible type whose text carries a mark the first one
+        # forbids (every position of the small document is probed, the boundary between the two among them)
+        mb = [x for x in (gen.gen_mark_boundary_doc(rng, schema) for _ in range(2)) if x is not None]
+        ctx.count("aimed_mark_boundary_docs", len(mb))
+        docs = docs + mb
         block_types = [t for t in schema.nodes.values() if not t.is_leaf and not t.is_text and not t.is_inline]
         for d in docs:
             size = d.content.size
